@@ -15,15 +15,17 @@ def _parse(line):
     nr = int(f[i])
     rc = f[i + 1:i + 1 + nr]
     closed = f[i + 1 + nr] == "1"
-    return ck, ops, sizes, rc, closed
+    npc = int(f[i + 2 + nr])
+    pieces = f[i + 3 + nr:i + 3 + nr + npc]
+    return ck, ops, pieces, sizes, rc, closed
 
 
 def c19_casesv(lines):
     rows = []
     for l in lines:
-        ck, ops, sizes, rc, closed = _parse(l)
-        rows.append("verdict_ok (check_case %d [%s] [%s] [%s] %s)" % (
-            ck, "; ".join(ops), "; ".join(sizes), "; ".join(rc), "true" if closed else "false"))
+        ck, ops, pieces, sizes, rc, closed = _parse(l)
+        rows.append("verdict_ok (check_case %d [%s] [%s] [%s] [%s] %s)" % (
+            ck, "; ".join(ops), "; ".join(pieces), "; ".join(sizes), "; ".join(rc), "true" if closed else "false"))
     return ("From Coq Require Import List NArith.\nImport ListNotations.\nFrom Glb Require Import Model.Progress Check.C19.\n"
             "Open Scope N_scope.\nDefinition verdicts : list bool := [\n  " + ";\n  ".join(rows) +
             "].\nEval vm_compute in verdicts.\n")
